@@ -137,6 +137,11 @@ CORPUS = [
     {"g": {"nodes": [0, 1, 2, 3, 4], "di": [[0, 3], [1, 3], [2, 3], [1, 4], [2, 4]], "bi": []},
      "outcomes": [[v(3, [(1, "m")]), "m"], [v(3, [(2, "m")]), "m"], [v(4, [(1, "m")]), "m"]],
      "conditions": [[v(0), "m"], [v(4, [(2, "m")]), "m"]]},
+    # witness of the defect repaired by `fix:` cf71e9b (the exchange makes an outcome the variable of a REMAINING CONDITION with another
+    # value; the answer is Zero): Z->X->W->Y, Z<->W (X=0, Y=1, Z=2, W=3); outcomes X = x, Y_{z,w'} = y; conditions Z_x = z, X_z = x'
+    {"g": {"nodes": [0, 1, 2, 3], "di": [[2, 0], [0, 3], [3, 1]], "bi": [[2, 3]]},
+     "outcomes": [[v(1, [(2, "m"), (3, "p")]), "m"], [v(0), "m"]],
+     "conditions": [[v(2, [(0, "m")]), "m"], [v(0, [(2, "m")]), "p"]]},
 ]
 
 
